@@ -7,7 +7,7 @@ From ZV.C07 Require Import Model ProofsArith ProofsLockFree ProofsProps ProofsBu
 From ZV.C07 Require Import ModelFive ProofsFiveArith ProofsFive ProofsFiveProps Cases.
 From ZV.C07 Require Import ModelTL ProofsTL ProofsTLProps.
 From ZV.C07 Require Import ModelTiered ProofsTiered ProofsTieredProps.
-From ZV.C07 Require Import ModelSecure ProofsSecure.
+From ZV.C07 Require Import ModelSecure ProofsSecure ProofsMemPool.
 Open Scope N_scope.
 
 (* any two live allocations occupy disjoint byte ranges - for every history and every arena size *)
@@ -505,3 +505,25 @@ Check secure_double_free_detected :
     let s := s_final lcache ops in
     occ (fst ch) (ss_live s) = 0 -> s_free lcache (ss_p s) ch = (false, ss_p s).
 Print Assumptions secure_double_free_detected.
+
+(* ------------------------------------------------------------------------------------------- *)
+(* MemoryPool (pool.rs, model in ModelTiered.v)                                                *)
+(* ------------------------------------------------------------------------------------------- *)
+(* MemoryPool: for every max_chunks and history of allocate / deallocate the handed-out chunks are pairwise distinct, the
+   queued chunks are pairwise distinct, no queued chunk is handed out, and the queue never exceeds max_chunks *)
+Theorem mempool_inv :
+  forall max ops,
+    let s := m_final max ops in
+    (forall i j c1 c2, i <> j -> nth_error (ms_live s) i = Some c1 -> nth_error (ms_live s) j = Some c2 -> snd c1 <> snd c2) /\
+    (forall i j c1 c2, i <> j -> nth_error (mp_q (ms_p s)) i = Some c1 -> nth_error (mp_q (ms_p s)) j = Some c2 -> snd c1 <> snd c2) /\
+    (forall c1 c2, In c1 (ms_live s) -> In c2 (mp_q (ms_p s)) -> snd c1 <> snd c2) /\
+    nlen (mp_q (ms_p s)) <= max.
+Proof. exact mempool_inv_proof. Qed.
+Check mempool_inv :
+  forall max ops,
+    let s := m_final max ops in
+    (forall i j c1 c2, i <> j -> nth_error (ms_live s) i = Some c1 -> nth_error (ms_live s) j = Some c2 -> snd c1 <> snd c2) /\
+    (forall i j c1 c2, i <> j -> nth_error (mp_q (ms_p s)) i = Some c1 -> nth_error (mp_q (ms_p s)) j = Some c2 -> snd c1 <> snd c2) /\
+    (forall c1 c2, In c1 (ms_live s) -> In c2 (mp_q (ms_p s)) -> snd c1 <> snd c2) /\
+    nlen (mp_q (ms_p s)) <= max.
+Print Assumptions mempool_inv.
